@@ -189,6 +189,48 @@ class SaltStrings(Part):
         return res
 
 
+class CallHistories(Part):
+    name = "encrypt_call_histories"
+    desc = "every ordered pair of encrypt calls whose salt strings and plaintexts are splits of one short string (salt+plaintext collide as text), incl. the default salt: both round trips hold whatever was encrypted before"
+
+    def __init__(self, tier, seed):
+        self.tier, self.seed = tier, seed
+
+    def cases(self):
+        return [{"first": c} for c in "abn$9-Q"]
+
+    def run(self, case):
+        res = Res()
+        js = mod()
+        alpha = "abn$9"
+        n = 4 if self.tier == "quick" else 5
+        words = [case["first"] + "".join(p) for k in range(1, n) for p in itertools.product(alpha, repeat=k)]
+        if "word" in case:
+            words = [case["word"]]
+        for w in words:
+            splits = [(w[:i], w[i:]) for i in range(1, len(w) + 1)]      # (salt string, plaintext)
+            if w[0] == "n":
+                splits.append((None, w[1:]))                             # the default salt is "n"
+            for (s1, p1), (s2, p2) in itertools.permutations(splits, 2):
+                from mc import seams
+
+                seams.restore_globals()
+                res.states += 1
+                res.transitions += 2
+                rc = {"first": case["first"], "word": w}
+                check_roundtrip(res, js, p1, s1, rc, "first-call")
+                c = check_roundtrip(res, js, p2, s2, rc, "after-another-call")
+                res.evals += 2
+                res.nt((s1, p1, s2, p2))
+                res.out(c)
+        from mc import seams
+
+        seams.restore_globals()
+        if "word" not in case:
+            res.samples.append({"first": case["first"], "strings": len(words)})
+        return res
+
+
 def judge_decode(res, js, s, rc, kind):
     try:
         exp = ("ok", refs.j9_decode(s))
@@ -280,4 +322,4 @@ class Decoder(Part):
 
 
 def parts(tier, seed):
-    return [EncoderGraph(tier, seed), SaltStrings(tier, seed), Decoder(tier, seed)]
+    return [EncoderGraph(tier, seed), SaltStrings(tier, seed), Decoder(tier, seed), CallHistories(tier, seed)]
